@@ -6,8 +6,8 @@ CONSTANTS
   PanicJobs = {}
   Caught = TRUE
   DriverLoop = TRUE
-  Fix = FALSE
+  Fix = TRUE
   TimedFifo = TRUE
   MaxLen = 40
-  NoTimeout = TRUE
+  NoTimeout = FALSE
 SPECIFICATION ESpec
